@@ -9,6 +9,10 @@ whatever NumPy broadcasting of the used coordinates gives: the full output shape
 unit axes (partial-coordinate functions), `()` (constants) or `(1, n)` (1d functions written
 in terms of `x` instead of `x[0]`).
 
+The input ODL hands to the callable is normalised first (a 1d mesh grid and, since the repair of
+C15-F9, a flat `(n,)` point array in 1d become `(1, n)`); that step is not modelled — `r` is
+recorded inside the real call, after it.
+
 NumPy's part is modelled concretely on shapes `List Nat` and index functions:
 `broadcastTo` (`np.broadcast_to`), `reshapeC` (`ndarray.reshape`, C order), `assignTo`
 (`out[:] = r`: leading unit axes beyond the rank of `out` are dropped, then broadcasting),
